@@ -35,9 +35,9 @@ func Validate(namespaces []*Namespace) (*Environment, error) {
 		validateStreams,
 		buildSymbolTable,
 		resolveTypes,
-		validateMaps,
 		assignUnionCaseTags,
 		topologicalSortTypes,
+		validateMaps,
 		convertGenericReferences,
 		validateUnionCases,
 		validateEnums,
